@@ -174,23 +174,23 @@ func edgeAtom(iff *ssa.If, idx int) (string, bool) {
 				if x.Op == token.NEQ {
 					t = !t
 				}
-				what := ""
-				switch o := other.(type) {
-				case *ssa.Call:
-					what = calleeShort(o.Common())
-				case *ssa.UnOp:
-					if o.Op == token.MUL {
-						what = ir.PathOf(o.X).Class()
-					}
-				case *ssa.Field:
-					what = ir.PathOf(o).Class()
-				case *ssa.Extract:
-					if c2, ok := o.Tuple.(*ssa.Call); ok {
-						what = fmt.Sprintf("%s#%d", calleeShort(c2.Common()), o.Index)
-					}
-				}
-				if what != "" {
+				if what := describeOperand(other); what != "" {
 					return "eq:" + what + ":" + cst.Value.ExactString(), t
+				}
+			}
+		}
+		// ordered comparison with a constant on the right: x > k, x < k, x >= k, x <= k
+		if k, ok := x.Y.(*ssa.Const); ok && k.Value != nil {
+			if what := describeOperand(x.X); what != "" {
+				switch x.Op {
+				case token.GTR:
+					return "gt:" + what + ":" + k.Value.ExactString(), truth
+				case token.LSS:
+					return "lt:" + what + ":" + k.Value.ExactString(), truth
+				case token.GEQ:
+					return "lt:" + what + ":" + k.Value.ExactString(), !truth
+				case token.LEQ:
+					return "gt:" + what + ":" + k.Value.ExactString(), !truth
 				}
 			}
 		}
@@ -211,10 +211,63 @@ func edgeAtom(iff *ssa.If, idx int) (string, bool) {
 			return "type:" + namedName(ta.AssertedType), truth
 		}
 		if lk, ok := x.Tuple.(*ssa.Lookup); ok && lk.CommaOk && x.Index == 1 {
-			return "lookup:" + ir.PathOf(lk.X).Class(), truth
+			lp := ir.PathOf(lk.X)
+			if len(lp.Fields) == 0 {
+				return "lookup:" + ir.RootName(lp.Root), truth
+			}
+			return "lookup:" + lp.Class(), truth
 		}
 	}
 	return "", truth
+}
+
+// describeOperand names a side-effect-free operand of a comparison: a call result,
+// a field load, len(field), field&const, an extracted tuple element.
+func describeOperand(v ssa.Value) string {
+	switch o := v.(type) {
+	case *ssa.Call:
+		if bi, ok := o.Common().Value.(*ssa.Builtin); ok {
+			if bi.Name() == "len" && len(o.Common().Args) == 1 {
+				if inner := describeOperand(o.Common().Args[0]); inner != "" {
+					return "len(" + inner + ")"
+				}
+			}
+			return ""
+		}
+		return calleeShort(o.Common())
+	case *ssa.UnOp:
+		if o.Op == token.MUL {
+			if lv := ir.LocalLoadValue(o); lv != nil {
+				return describeOperand(lv)
+			}
+			p := ir.PathOf(o.X)
+			if len(p.Fields) == 0 {
+				return ir.RootName(p.Root)
+			}
+			return p.Class()
+		}
+	case *ssa.Field:
+		return ir.PathOf(o).Class()
+	case *ssa.Extract:
+		if c2, ok := o.Tuple.(*ssa.Call); ok {
+			return fmt.Sprintf("%s#%d", calleeShort(c2.Common()), o.Index)
+		}
+	case *ssa.BinOp:
+		if o.Op == token.AND {
+			if k, ok := o.Y.(*ssa.Const); ok && k.Value != nil {
+				if inner := describeOperand(o.X); inner != "" {
+					return inner + "&" + k.Value.ExactString()
+				}
+			}
+		}
+	case *ssa.Convert:
+		return describeOperand(o.X)
+	case *ssa.Slice:
+		return describeOperand(o.X)
+	case *ssa.Parameter:
+		return o.Name()
+	}
+	return ""
 }
 
 // calleeShort: "Type.Method" or "pkg.Func".
